@@ -2,6 +2,8 @@ import PercevalModel.Proto
 import PercevalModel.Model.C06
 import PercevalModel.Model.C06Proc
 import PercevalModel.Model.C06Samp
+import PercevalModel.Lemmas.C06PlaceDefs
+import PercevalModel.Model.C06Anon
 
 open Lean PM PM.Proto PM.C06
 
@@ -78,8 +80,12 @@ def parseNoiseVal (j : Json) : Except String NoiseVal := do
             else if model = "indistinguishable" then pure false else throw "bad-model")
   let v : NoiseVal := { brightness := beta, g2 := g2, q := q, ind := ind, r := r, transmittance := tr,
                         g2dist := gd }
-  if !v.params.admissible then throw "AssertionError"
-  if !v.params.rootsOk then throw "bad-roots"
+  -- a `NoiseModel` object may hold values `Source.__init__` rejects (each field is validated on its own only);
+  -- `q` is meaningless then (no real root), `r` still has to be the root of the indistinguishability
+  if v.admissible then
+    if !v.params.rootsOk then throw "bad-roots"
+  else
+    if !(decide (0 ≤ r) && decide (r * r = ind)) then throw "bad-roots"
   return v
 
 def nearGenAll (P : Params) (thr : ℚ) (ns : List ℕ) (t : ℕ) : Bool :=
@@ -105,6 +111,9 @@ def runHist (j : Json) : Except String Json := do
   let objs ← (← (← j.getObjVal? "objs").getArr?).toList.mapM parseNoiseVal
   let ref ← natOf j "init"
   if objs.length ≤ ref then throw "bad-ref"
+  -- `Processor(..., noise=nm)` with values the `Source` constructor rejects raises: there is no processor
+  if !((objs.getD ref { brightness := 1, g2 := 0, q := 1, ind := 1, r := 1, transmittance := 1,
+                         g2dist := true }).admissible) then throw "AssertionError"
   let dflt : NoiseVal := { brightness := 1, g2 := 0, q := 1, ind := 1, r := 1, transmittance := 1,
                            g2dist := true }
   let ops ← (← (← j.getObjVal? "steps").getArr?).toList.mapM parseProcOp
@@ -150,14 +159,6 @@ def routeStr : SampRoute → String
   | .noEvent => "IndexError"
   | .events => "events"
 
-/-- row `i` of the draws: the `i`-th draw of every call -/
-def rowOf (calls : List (List ℕ)) (i : ℕ) : List ℕ := calls.map fun c => c.getD i 0
-
-/-- cut the flat list of calls into the calls of each mode -/
-def cutBy {α : Type} : List ℕ → List α → List (List α)
-  | [], _ => []
-  | n :: ns, l => l.take n :: cutBy ns (l.drop n)
-
 def isPermOf (n : ℕ) (p : List ℕ) : Bool :=
   p.length = n && (List.range n).all fun i => p.contains i
 
@@ -175,7 +176,8 @@ def replayNF (P : Params) (j : Json) : Except String Json := do
   if calls.any (fun c => c.length ≠ k) then throw "bad-draw: call size"
   if (List.zip flat calls).any (fun x => x.2.any fun i => decide (x.1.length ≤ i)) then
     throw "bad-draw: index"
-  let samples := (List.range k).map fun i => nfSample dss (cutBy ns (rowOf calls i))
+  if dss.map List.length ≠ ns then throw "model: one distribution per requested photon expected"
+  let samples := nfSamples dss k calls
   let callsJ := Json.arr (flat.map fun d => distJ modeJ (normalize d)).toArray
   return Json.mkObj [("samples", Json.arr (samples.map stateJ).toArray), ("calls", callsJ),
     ("tag", toJson (nfTag P ns t))]
@@ -201,12 +203,33 @@ def replayF (P : Params) (j : Json) : Except String Json := do
   if perms.any (fun p => !isPermOf n p) then throw "bad-draw: not a permutation"
   let samples := fSamples P.dm ns t events (bIdx.map fun i => decide (i = 0)) perms
   let evJ := Json.arr (events.map fun e => Json.arr #[toJson e.1, toJson e.2.1, toJson e.2.2]).toArray
+  -- the observable of `sampler_filtered_law`: the per-mode class profile (common-tag photons, fresh-tag photons)
+  let profJ := fun (s : State) => Json.arr ((profile s).map fun c => Json.arr #[toJson c.1, toJson c.2]).toArray
   return Json.mkObj [("samples", Json.arr (samples.map stateJ).toArray), ("events", evJ),
-    ("boolw", Json.arr #[ratToJson P.r, ratToJson (1 - P.r)])]
+    ("boolw", Json.arr #[ratToJson P.r, ratToJson (1 - P.r)]),
+    ("profiles", Json.arr (samples.map profJ).toArray)]
+
+/-! ### `simplify_distribution` / `anonymize_annotations` -/
+
+def tagOfJson (j : Json) : Except String Tag :=
+  match j with
+  | Json.null => pure none
+  | _ => do pure (some (← j.getNat?))
+
+def stateOfJson (j : Json) : Except String State := do
+  (← j.getArr?).toList.mapM fun m => do (← m.getArr?).toList.mapM tagOfJson
+
+/-- `anonymize_annotations(StateVector(bs), annot_tag='_')` on ONE state whose modes are given in the
+visiting order of the code (`photon2mode(i)`, `get_photon_annotation(i)`, `i = 0 … n-1`) -/
+def anonStateOp (j : Json) : Except String Json := do
+  let s ← stateOfJson (← j.getObjVal? "state")
+  return Json.mkObj [("state", stateJ (anonState s)), ("unsorted", stateJ (anonModes [] s)),
+    ("map", modeJ (annotMap s))]
 
 def handleE (j : Json) : Except String Json := do
   let op ← strOf j "op"
   if op = "hist" then return ← runHist j
+  if op = "anon_state" then return ← anonStateOp j
   let P ← parseParams (← j.getObjVal? "P")
   match op with
   | "probs" =>
@@ -231,6 +254,17 @@ def handleE (j : Json) : Except String Json := do
     let raw := generateRaw P θ ns t
     let near := nearGen P θ ns t || nearLtp θ ((modeDists P θ ns t).map lift)
     return Json.mkObj [("dist", distJ stateJ (normalize raw)), ("rawmass", ratToJson (mass raw)),
+      ("near", toJson near)]
+  | "gen_simplify" =>
+    -- `generate_distribution` with the attribute `simplify_distribution` = "simplify"
+    let t ← natOf j "t"
+    let ns ← natList (← j.getObjVal? "ns")
+    let thr ← ratOf j "thr"
+    let simplify ← boolOf j "simplify"
+    let θ := max thr minP
+    let near := nearGen P θ ns t || nearLtp θ ((modeDists P θ ns t).map lift)
+    return Json.mkObj [("dist", distJ stateJ (generateS P simplify thr ns t)),
+      ("applied", toJson (simplify && partDist P)), ("rawmass", ratToJson (mass (generateRaw P θ ns t))),
       ("near", toJson near)]
   | "exact" =>
     -- the untrimmed product (threshold 0), optionally conditioned on `photons ≥ f`
